@@ -67,6 +67,7 @@ type change struct {
 	ID            string
 	Before, After string
 	G             uint64
+	CB            int // index of the registered OnChange callback that logged it
 }
 
 type fixture struct {
@@ -121,10 +122,12 @@ func vetoed(after interface{}) bool {
 
 func newFixture(cfg Cfg) (*fixture, error) {
 	f := &fixture{cfg: cfg}
-	onChange := func(id string, before, after interface{}) {
-		f.mu.Lock()
-		f.log = append(f.log, change{ID: id, Before: enc(before), After: enc(after), G: gid()})
-		f.mu.Unlock()
+	onChangeN := func(cb int) func(id string, before, after interface{}) {
+		return func(id string, before, after interface{}) {
+			f.mu.Lock()
+			f.log = append(f.log, change{ID: id, Before: enc(before), After: enc(after), G: gid(), CB: cb})
+			f.mu.Unlock()
+		}
 	}
 	switch cfg.Kind {
 	case "badger-typed", "badger-map":
@@ -147,7 +150,7 @@ func newFixture(cfg Cfg) (*fixture, error) {
 			})
 		}
 		for i := 0; i < cfg.OnChg; i++ {
-			st.OnChange(onChange)
+			st.OnChange(onChangeN(i))
 		}
 		f.st = st
 	default:
@@ -161,7 +164,7 @@ func newFixture(cfg Cfg) (*fixture, error) {
 			}
 		}
 		for i := 0; i < cfg.OnChg; i++ {
-			st.OnChange(onChange)
+			st.OnChange(onChangeN(i))
 		}
 		f.st = st
 		f.cleanup = func() {}
@@ -423,7 +426,7 @@ func genCfg() *rapid.Generator[Cfg] {
 		c := Cfg{Kind: rapid.SampledFrom([]string{"badger-typed", "badger-map", "badger-typed", "mock", "mock-newid"}).Draw(t, "kind")}
 		c.Prefix = rapid.SampledFrom([]string{"", "pfx", "a.b"}).Draw(t, "prefix")
 		c.Vetoes = rapid.IntRange(0, 2).Draw(t, "vetoes")
-		c.OnChg = rapid.IntRange(1, 2).Draw(t, "onchange")
+		c.OnChg = rapid.SampledFrom([]int{1, 1, 2, 0}).Draw(t, "onchange")
 		return c
 	})
 }
@@ -622,8 +625,8 @@ func runConcurrent(cfg Cfg, progs [][]COp) (msg string, contended bool) {
 	// (2) callback chain per id (first OnChange callback's log only)
 	per := map[string][]change{}
 	f.mu.Lock()
-	for i, c := range f.log {
-		if cfg.OnChg > 1 && i%cfg.OnChg != 0 {
+	for _, c := range f.log {
+		if c.CB != 0 {
 			continue
 		}
 		per[c.ID] = append(per[c.ID], c)
@@ -644,7 +647,7 @@ func runConcurrent(cfg Cfg, progs [][]COp) (msg string, contended bool) {
 		if err == nil {
 			final = enc(v)
 		}
-		if final != last {
+		if cfg.OnChg > 0 && final != last {
 			return fmt.Sprintf("id %q: store finally holds %q, the last change callback reported %q", id, final, last), contended
 		}
 	}
